@@ -23,13 +23,13 @@ BUDGET = {'quick': 6000, 'thorough': 160000}
 
 PROFILE = {
     'weights': {'app': 12, 'down': 4, 'up': 3, 'freeze': 3, 'unfreeze': 2,
-                'bl': 3, 'adv': 4, 'adv_ret': 4, 'downseq': 5, 'freezeflip': 2},
+                'bl': 3, 'adv': 4, 'adv_ret': 4, 'downseq': 5, 'freezeflip': 2, 'stalemark': 3},
     'force': ['down', 'adv_ret', 'downseq'],
     'lease': False,
 }
 
 
-E2_PROFILE = {'weights': {'app': 12, 'down': 6, 'up': 3, 'state': 5, 'bl': 3, 'adv': 4, 'adv_ret': 4, 'downseq': 5, 'downrestart': 4, 'freezeflip': 2, 'restart': 2, 'integrity': 2, 'running': 2}, 'force': ['down', 'adv_ret', 'downseq', 'downrestart'], 'lease': False}
+E2_PROFILE = {'weights': {'app': 12, 'down': 6, 'up': 3, 'state': 5, 'bl': 3, 'adv': 4, 'adv_ret': 4, 'downseq': 5, 'downrestart': 4, 'freezeflip': 2, 'stalemark': 3, 'restart': 2, 'integrity': 2, 'running': 2}, 'force': ['down', 'adv_ret', 'downseq', 'downrestart'], 'lease': False}
 
 
 def strategy(tier):
